@@ -21,6 +21,8 @@ import Octo.Model.TyAlgebra
   `TypeIDDuration`/`TypeIDInt`/`Tuple`/`Any` are never inferred for JSON; `getValue` returns `(ZeroValue, false)`
   for them exactly like the Go `switch` (the Duration case of the Go code, which needs `time.ParseDuration`, is
   unreachable for inferred schemas and modelled as "no match").
+  A struct type is two parallel lists; should there be fewer names than types (never produced by the codec or by the
+  model) the missing names read as the empty name, as in `Ty.structLoop`.
 -/
 namespace Octo.Files
 open Octo
@@ -180,11 +182,11 @@ def getValue : Ty → Option J → Value × Bool
   | _, _ => (.null, false)
 /-- `for i, field := range t.Struct.Fields { getOctoSQLValue(field.Type, obj.Get(field.Name)) … }` -/
 def getFields : List Name → List Ty → J → List Value × Bool
-  | n :: ns, t :: ts, o =>
-    let r := getValue t (o.get n)
-    let rs := getFields ns ts o
+  | ns, t :: ts, o =>
+    let r := getValue t (o.get (ns.headD []))
+    let rs := getFields ns.tail ts o
     (r.1 :: rs.1, r.2 && rs.2)
-  | _, _, _ => ([], true)
+  | _, [], _ => ([], true)
 /-- `for _, alternative := range t.Union.Alternatives { if v, ok := …; ok { return v, true } }` -/
 def getUnion : List Ty → J → Value × Bool
   | [], _ => (.null, false)
@@ -224,11 +226,11 @@ def getValueRaw : Ty → Option J → RawOut
   | .union alts, some j => getUnionRaw alts j
   | _, _ => .val .null false
 def getFieldsRaw : List Name → List Ty → J → Option (List Value × Bool)
-  | n :: ns, t :: ts, o =>
-    match getValueRaw t (o.get n), getFieldsRaw ns ts o with
+  | ns, t :: ts, o =>
+    match getValueRaw t (o.get (ns.headD [])), getFieldsRaw ns.tail ts o with
     | .val v ok, some rs => some (v :: rs.1, ok && rs.2)
     | _, _ => none
-  | _, _, _ => some ([], true)
+  | _, [], _ => some ([], true)
 def getUnionRaw : List Ty → J → RawOut
   | [], _ => .val .null false
   | a :: as, j =>
@@ -302,8 +304,8 @@ def represents : Ty → Value → Option J → Bool
   | .union alts, v, some j => representsAny alts v j
   | _, _, _ => false
 def representsFields : List Name → List Ty → List Value → J → Bool
-  | n :: ns, t :: ts, f :: fs, o => represents t f (o.get n) && representsFields ns ts fs o
-  | [], [], [], _ => true
+  | ns, t :: ts, f :: fs, o => represents t f (o.get (ns.headD [])) && representsFields ns.tail ts fs o
+  | _, [], [], _ => true
   | _, _, _, _ => false
 def representsAny : List Ty → Value → J → Bool
   | [], _, _ => false
@@ -326,8 +328,8 @@ def fits : Ty → Option J → Bool
   | .union alts, some j => fitsAny alts j
   | _, _ => false
 def fitsFields : List Name → List Ty → J → Bool
-  | n :: ns, t :: ts, o => fits t (o.get n) && fitsFields ns ts o
-  | _, _, _ => true
+  | ns, t :: ts, o => fits t (o.get (ns.headD [])) && fitsFields ns.tail ts o
+  | _, [], _ => true
 def fitsAny : List Ty → J → Bool
   | [], _ => false
   | a :: as, j => fits a (some j) || fitsAny as j
@@ -342,8 +344,8 @@ def coversKeys : Ty → J → Bool
   | _, .obj _ _ => false
   | _, _ => true
 def coversFields : List Name → List Ty → J → Bool
-  | n :: ns, t :: ts, o => (match o.get n with | some x => coversKeys t x | none => true) && coversFields ns ts o
-  | _, _, _ => true
+  | ns, t :: ts, o => (match o.get (ns.headD []) with | some x => coversKeys t x | none => true) && coversFields ns.tail ts o
+  | _, [], _ => true
 def coversAny : List Ty → J → Bool
   | [], j => (match j with | .obj _ _ => false | .arr _ => false | _ => true)
   | a :: as, j => (fits a (some j) && coversKeys a j) || coversAny as j
